@@ -203,6 +203,76 @@ func init() {
 		}
 	}
 
+	// the session of the PREVIOUS session height as claim validation regenerates it on a node whose session cache is
+	// cold (restart, eviction): the servicers whose claim passes the session test must be exactly the nodes that
+	// session generation yields for (application, chain, session height) with the session-start block hash, i.e. the
+	// nodes dispatch handed out while the session was current
+	chainInvariants["sessions-claimpath"] = func(r *replica, res *JobResult) {
+		ctx := r.ctxNow()
+		_, nk, apk, _, pk := r.app.VerifKeepers()
+		sbh := pk.GetLatestSessionBlockHeight(ctx)
+		bps := pk.BlocksPerSession(ctx)
+		sh := sbh - bps
+		if sh <= r.env.BaseHeight+1 {
+			return
+		}
+		sessionCtx, err := ctx.PrevCtx(sh)
+		if err != nil {
+			return
+		}
+		endCtx, err := ctx.PrevCtx(sh + bps - 1)
+		if err != nil {
+			return
+		}
+		app, found := apk.GetApplication(sessionCtx, caddr("P1"))
+		if !found {
+			return
+		}
+		header := pc.SessionHeader{ApplicationPubKey: app.PublicKey.RawString(), Chain: "0001", SessionBlockHeight: sh}
+		count := int(pk.SessionNodeCount(sessionCtx))
+		hash, e := sessionCtx.BlockHash(chainCodec(), sh)
+		if e != nil {
+			return
+		}
+		if pc.GlobalSessionCache == nil {
+			pc.GlobalSessionCache = &pc.CacheStorage{}
+			pc.GlobalSessionCache.Init("", "", config.LevelDBOptions{}, 100, true)
+		}
+		ref, rerr := pc.NewSession(sessionCtx, endCtx, nk, header, hex.EncodeToString(hash), count)
+		want := map[string]bool{}
+		if rerr == nil {
+			for _, n := range ref.SessionNodes {
+				want[roleOf(n)] = true
+			}
+		}
+		got := map[string]bool{}
+		codes := map[string]string{}
+		undecided := false
+		for _, v := range nk.GetAllValidators(sessionCtx) {
+			pc.ClearSessionCache(pc.GlobalSessionCache)
+			cl := pc.MsgClaim{SessionHeader: header, MerkleRoot: pc.HashRange{Hash: make([]byte, 32), Range: pc.Range{Upper: 1}}, TotalProofs: 5, FromAddress: v.Address, EvidenceType: pc.RelayEvidence}
+			role := roleOf(v.Address)
+			if ce := pk.ValidateClaim(ctx, cl); ce == nil {
+				got[role] = true
+				codes[role] = "accepted"
+			} else {
+				codes[role] = fmt.Sprintf("code %d", ce.Code())
+				if ce.Code() != pc.CodeInvalidSessionError && !(rerr != nil && ce.Code() == rerr.Code()) {
+					undecided = true // refused for a reason other than the session test (application gone, over-service, ...)
+				}
+			}
+		}
+		pc.ClearSessionCache(pc.GlobalSessionCache)
+		if undecided {
+			res.Obs["claimpath"] = "undecided"
+			return
+		}
+		res.Obs["claimpath"] = fmt.Sprintf("%d-of-%d", len(got), len(codes))
+		if fmt.Sprint(want) != fmt.Sprint(got) {
+			res.viol("sessions/claim-validation-regenerates-other-session", fmt.Sprintf("height %d: session %d of P1 on chain 0001 (%d seats): session generation with the session-start block hash gives %v (error %v); claim validation on a cold session cache lets these servicers pass: %v (per node: %v)", r.height, sh, count, want, rerr, got, codes))
+		}
+	}
+
 	register(&Check{ID: "C33", QuickBud: 110 * time.Second, ThorBud: 25 * time.Minute,
 		Run: func(c *ev.Ctx) {
 			counts := []int{1, 2, 3}
@@ -212,7 +282,7 @@ func init() {
 				counts = []int{1, 2, 3, 5}
 				keys = append(keys, "g", "h", "i", "j", "k", "l", "m", "n", "o", "p")
 			}
-			c.Rule = "(1) NewSessionNodes over a stub node keeper: session sizes n x candidate populations of n-1..n+3 nodes x EVERY assignment of {eligible, jailed, over the chain limit, no longer on the chain, gone} to the candidates x several session keys: the result is identical on a second call, fails iff fewer than n candidates are eligible at the reference height, and otherwise contains exactly n distinct eligible nodes; each call has a 60 s watchdog (nominal cost microseconds); (2) on the real application: BFS over a node/jail/unjail/edit menu, the dispatched session for the staked application is checked the same way in every reached state"
+			c.Rule = "(1) NewSessionNodes over a stub node keeper: session sizes n x candidate populations of n-1..n+3 nodes x EVERY assignment of {eligible, jailed, over the chain limit, no longer on the chain, gone} to the candidates x several session keys: the result is identical on a second call, fails iff fewer than n candidates are eligible at the reference height, and otherwise contains exactly n distinct eligible nodes; each call has a 60 s watchdog (nominal cost microseconds); (2) on the real application: BFS over a node/jail/unjail/edit menu, the dispatched session for the staked application is checked the same way in every reached state, and for the previous session the set of servicers whose claim passes claim validation on a cold session cache must equal the nodes session generation gives with the session-start block hash"
 			c.Assume("termination is checked by a watchdog bound, not proved")
 			resetGlobals(defaultEnv()) // mainnet-era feature schedule: the chain limit is enforced
 			var cases []c33Case
@@ -282,6 +352,7 @@ func init() {
 			env := defaultEnv()
 			env.MaxValidators = 3
 			env.SessionNodeCount = 2
+			env.BaseRelays = 1000 // a claim of 5 relays is within P1's allowance
 			env.Setup = append(append([]TxSpec{}, env.Setup...), TxSpec{Kind: "node_stake", Signer: "N3", Args: map[string]string{"node": "N3", "value": "1000000", "output": "N3", "chains": "0001"}})
 			menu := []BlockSpec{{Absent: []string{"N1"}}, {Absent: []string{"N3"}}, {Evidence: []string{"N3"}}, blk(tx("node_unjail", "N1", "node", "N1", "as", "N1")),
 				blk(tx("node_stake", "N2", "node", "N2", "value", "3000000", "output", "N2", "chains", "0002")), blk(tx("node_unstake", "N1")), {TimeJump: 2}, {}}
@@ -289,7 +360,12 @@ func init() {
 			if c.Tier == "thorough" {
 				depth = 5
 			}
-			cfg := &chainCfg{Name: "sessions", Env: env, Menu: menu, Depth: depth, Want: []string{"sessions"}}
+			cfg := &chainCfg{Name: "sessions", Env: env, Menu: menu, Depth: depth, Want: []string{"sessions", "sessions-claimpath"}}
+			cfg.OnResult = func(c *ev.Ctx, hist []int, job Job, res JobResult) {
+				if v, ok := res.Obs["claimpath"].(string); ok {
+					c.Outcome("claim-path-session:" + v)
+				}
+			}
 			st := chainExplore(c, cfg)
 			c.BoundDone = fmt.Sprintf("%d stub-keeper cases; %s", n, chainDone(c, cfg, st))
 			getPool().Close()
